@@ -13,9 +13,29 @@ use std::collections::BTreeMap;
 use std::hash::{Hash, Hasher};
 use std::panic::{catch_unwind, AssertUnwindSafe};
 
-#[derive(Clone, Debug, PartialEq, Eq, PartialOrd, Ord)]
+/// `version` is not part of the identity (like a document version in a language server): two ids
+/// with the same name are equal, hash equally and still can be told apart.
+#[derive(Clone, Debug)]
 pub struct CoarseId {
     pub name: String,
+    pub version: u64,
+}
+
+impl PartialEq for CoarseId {
+    fn eq(&self, o: &Self) -> bool {
+        self.name == o.name
+    }
+}
+impl Eq for CoarseId {}
+impl PartialOrd for CoarseId {
+    fn partial_cmp(&self, o: &Self) -> Option<std::cmp::Ordering> {
+        Some(self.cmp(o))
+    }
+}
+impl Ord for CoarseId {
+    fn cmp(&self, o: &Self) -> std::cmp::Ordering {
+        self.name.cmp(&o.name)
+    }
 }
 
 impl Hash for CoarseId {
@@ -60,7 +80,8 @@ pub fn run(s: &HistScenario) -> RunOut {
     let mut count = |k: &str| *counters.entry(k.to_owned()).or_default() += 1;
     let mut out = Digest::new();
     let mut violation: Option<Violation> = None;
-    let mut model: BTreeMap<CoarseId, String> = BTreeMap::new();
+    // value: (text, version of the id given by the latest add)
+    let mut model: BTreeMap<CoarseId, (String, u64)> = BTreeMap::new();
     policy.install(0);
     let mut parser: Parser<CoarseId> = if s.ctor_default { Parser::default() } else { Parser::new() };
     let mut max_live = 0usize;
@@ -73,12 +94,12 @@ pub fn run(s: &HistScenario) -> RunOut {
         let mut observe_now = s.observe_every_step;
         match &st.op {
             Op::Add { path, content } => {
-                let id = CoarseId { name: path.clone() };
+                let id = CoarseId { name: path.clone(), version: step_no };
                 let text = content.text();
                 // a text that panics a fresh parser is C01's business
                 let probe = catch_unwind(AssertUnwindSafe(|| {
                     let mut p: Parser<CoarseId> = Parser::new();
-                    p.add_content(CoarseId { name: "probe".to_owned() }, &text);
+                    p.add_content(CoarseId { name: "probe".to_owned(), version: 0 }, &text);
                     let _ = p.validate();
                 }));
                 if probe.is_err() {
@@ -96,14 +117,14 @@ pub fn run(s: &HistScenario) -> RunOut {
                     });
                     break;
                 }
-                if model.insert(id, text).is_some() {
+                if model.insert(id, (text, step_no)).is_some() {
                     count("replaces");
                 }
                 pending = true;
                 count("op_add_content");
             }
             Op::Remove { path } => {
-                let id = CoarseId { name: path.clone() };
+                let id = CoarseId { name: path.clone(), version: step_no };
                 let _ = catch_unwind(AssertUnwindSafe(|| parser.remove_content(id.clone())));
                 if model.remove(&id).is_some() {
                     count("removes_live");
@@ -116,7 +137,7 @@ pub fn run(s: &HistScenario) -> RunOut {
             Op::Validate { .. } => observe_now = true,
             // no file I/O with a generic id type; warm-ups are about threads
             Op::RemoveAbsentMany { n } => {
-                let id = CoarseId { name: "never/added".to_owned() };
+                let id = CoarseId { name: "never/added".to_owned(), version: step_no };
                 for _ in 0..*n {
                     parser.remove_content(id.clone());
                 }
@@ -137,7 +158,8 @@ pub fn run(s: &HistScenario) -> RunOut {
         policy.install(1_000_000 + step_no);
         let mut fresh: Parser<CoarseId> = if s.ctor_default { Parser::new() } else { Parser::default() };
         let mut fresh_panic = false;
-        for (id, text) in &model {
+        for (id, (text, version)) in &model {
+            let id = CoarseId { name: id.name.clone(), version: *version };
             if catch_unwind(AssertUnwindSafe(|| fresh.add_content(id.clone(), text))).is_err() {
                 fresh_panic = true;
             }
@@ -177,6 +199,25 @@ pub fn run(s: &HistScenario) -> RunOut {
                 ),
                 left: format!("{gk:?}"),
                 right: format!("{mk:?}"),
+            });
+            break;
+        }
+        // the id a result is tagged with is the one given by the latest add (its version tells)
+        let stale = got
+            .iter()
+            .find(|(k, g)| model.get(*k).map(|(_, v)| *v != g.id.version).unwrap_or(false))
+            .map(|(k, g)| (k.name.clone(), g.id.version));
+        if let Some((name, v)) = stale {
+            violation = Some(Violation {
+                property: "C12",
+                clause: "id_latest".to_owned(),
+                signature: "id_latest:coarse".to_owned(),
+                detail: format!(
+                    "after step {si}: the result for {name:?} is tagged with the id object of an earlier add (version {v}), not with the one given by the call that stored its latest content (version {})",
+                    model.iter().find(|(k, _)| k.name == name).map(|(_, (_, v))| *v).unwrap_or(0)
+                ),
+                left: format!("{v}"),
+                right: String::new(),
             });
             break;
         }
